@@ -98,7 +98,7 @@ func hostileCorrupt(rng *rand.Rand, e *delivered, kind string, src chain.Chain, 
 		b, look := bareContractSend(rng, src, m)
 		setContent(m, headerAt(hs, rng.Intn(len(hs)+1), b.Header()))
 		d.AccountBlocks = insertAt(d.AccountBlocks, rng.Intn(len(d.AccountBlocks)+1), b)
-		e.okM = false
+		e.unheld = true // as many distinct delivered blocks as headers, genuine changes hash, elected signer: only the pool can tell
 		return "hostile:lists-bare-contract-send(" + look + ")"
 	}
 	switch kind {
@@ -329,6 +329,7 @@ func (w *world) hostileDelivery(s *Node) {
 		setContent(m, headerAt(hs, rng.Intn(len(hs)+1), b.Header()))
 		blocks = insertAt(blocks, rng.Intn(len(blocks)+1), b)
 		variant += "(" + look + ")"
+		e.okM, e.unheld = true, true
 	case "lists-header-without-block":
 		b, _ := bareContractSend(rng, s.Ch, m)
 		setContent(m, headerAt(hs, rng.Intn(len(hs)+1), b.Header()))
@@ -400,7 +401,7 @@ func (w *world) hostileDelivery(s *Node) {
 	if depth == 0 {
 		kind = "hostile-producer-in-extension"
 	}
-	if e.okM {
+	if e.okM && !e.unheld {
 		kind += "(valid)"
 	}
 	w.deliver(batch, kind, s.Ch)
